@@ -1,7 +1,9 @@
 // Package overlayx is the C12 explorer: every pair (original declarations, overlay
-// declarations with directives) over a shape alphabet is merged by the REAL overlay
-// machinery (verif hook mirroring parseAndAugment) and compared with an independent
-// declaration-level model of the documented rules; the result must type-check.
+// declarations with directives) over a shape alphabet is merged by the REAL
+// parseAndAugment (the overlay sources are served through natives.FS, the original
+// sources through the package's build context: verif hooks natives.VerifSetFS and
+// build.VerifParseAndAugment) and compared with an independent declaration-level
+// model of the documented rules; the result must type-check.
 package overlayx
 
 import (
@@ -20,6 +22,7 @@ import (
 	"sync"
 
 	gbuild "github.com/gopherjs/gopherjs/build"
+	"github.com/gopherjs/gopherjs/compiler/natives"
 )
 
 // sym is one original top-level declaration (possibly declaring several names).
@@ -48,10 +51,21 @@ var origSyms = []sym{
 	{id: "c1", text: "const c1 = 5", names: []string{"c1"}, kind: "const"},
 	{id: "k", text: "const (\n\tk0 = iota\n\tk1\n\tk2\n)", names: []string{"k0", "k1", "k2"}, kind: "const"},
 	{id: "m", text: "const (\n\tm0 = iota * 10\n\tm1\n\tm2 = \"x\"\n)", names: []string{"m0", "m1", "m2"}, kind: "const"},
+	// an explicit iota-free spec in the middle of a group: the specs after it still count from the start of the group
+	{id: "n", text: "const (\n\tn0 = iota\n\tn1\n\tn2 = \"s\"\n\tn3 = iota\n\tn4\n)", names: []string{"n0", "n1", "n2", "n3", "n4"}, kind: "const"},
+	// a method that happens to be called init is an ordinary method
+	{id: "minit", text: "func (t *T1) init() int { return 5 }", names: []string{"T1.init"}, kind: "method", recv: "T1"},
+	// package initialisers never override each other: both sides stay
+	{id: "pinit", text: "func init() { _, _ = two() }", names: []string{"init"}, kind: "pkginit"},
+	// the only use of an import is in the signature
+	{id: "f3", text: "func f3(t *unicode.RangeTable) int { return 3 }", names: []string{"f3"}, kind: "func", imports: []string{`"unicode"`}},
 }
 
 // fixed part of the original package (never overridden)
-const origBase = "func two() (int, int) { return 1, 2 }\n\nvar keepUsed = unsafe.Sizeof(0)\n"
+const origBase = "func two() (int, int) { return 1, 2 }\n\nvar keepUsed = unsafe.Sizeof(0)\n\nvar keepDot = Inf()\n"
+
+// imports of the fixed part: unsafe (used), a blank import and a dot import (both must survive any merge)
+var baseImports = []string{`"unsafe"`, `_ "unicode/utf16"`, `. "math/cmplx"`}
 
 // action on one name in the overlay
 type action struct {
@@ -83,6 +97,9 @@ func overlayText(s sym, key, act string) (string, bool) {
 			if s.id == "f2" {
 				return "//gopherjs:keep-original\nfunc f2(a, b int) (int, error) { return _gopherjs_original_f2(a, b) }", true
 			}
+			if s.id == "f3" {
+				return "//gopherjs:keep-original\nfunc f3(t *unicode.RangeTable) int { return _gopherjs_original_f3(t) }", true
+			}
 			return "//gopherjs:keep-original\nfunc " + name + "() int { return _gopherjs_original_" + name + "() + 1 }", true
 		case "purge":
 			return "//gopherjs:purge\nfunc " + name + "()", true
@@ -90,7 +107,14 @@ func overlayText(s sym, key, act string) (string, bool) {
 			if s.id == "f2" {
 				return "//gopherjs:override-signature\nfunc f2(a, b int8) (int, error)", true
 			}
+			if s.id == "f3" {
+				return "//gopherjs:override-signature\nfunc f3(t int) int", true
+			}
 			return "//gopherjs:override-signature\nfunc " + name + "() int", true
+		}
+	case "pkginit":
+		if act == "override" {
+			return "func init() { _ = 0 }", true
 		}
 	case "method":
 		switch act {
@@ -124,6 +148,8 @@ func overlayText(s sym, key, act string) (string, bool) {
 			return "var " + name + " = \"ov\"", true
 		case "purge":
 			return "//gopherjs:purge\nvar " + name + " int", true
+		case "purgespec":
+			return "var (\n\t//gopherjs:purge\n\t" + name + " int\n\tExtra" + name + " int\n)", true
 		}
 	case "const":
 		switch act {
@@ -131,6 +157,8 @@ func overlayText(s sym, key, act string) (string, bool) {
 			return "const " + name + " = 100", true
 		case "purge":
 			return "//gopherjs:purge\nconst " + name + " = 0", true
+		case "purgespec":
+			return "const (\n\t//gopherjs:purge\n\t" + name + " = 0\n\tExtra" + name + " = 1\n)", true
 		}
 	}
 	return "", false
@@ -140,8 +168,9 @@ var actsByKind = map[string][]string{
 	"func":   {"override", "keep", "purge", "sig"},
 	"method": {"override", "keep", "purge", "sig"},
 	"type":   {"override", "purge", "purgespec"},
-	"var":    {"override", "purge"},
-	"const":  {"override", "purge"},
+	"var":     {"override", "purge", "purgespec"},
+	"const":   {"override", "purge", "purgespec"},
+	"pkginit": {"override"},
 }
 
 type Result struct {
@@ -254,27 +283,38 @@ func check(fset *token.FileSet, files []*ast.File) (*types.Info, error) {
 	return info, err
 }
 
-// evalPair runs one (original symbols, overlay actions) pair.
-func evalPair(r *Result, syms []sym, acts []action, newSym bool) {
-	var oDecls, vDecls, oImports []string
-	byKey := map[string]sym{}
+// prepared is one (original symbols, overlay actions) pair, rendered to sources.
+type prepared struct {
+	id        string
+	syms      []sym
+	acts      []action
+	byKey     map[string]sym
+	newSym    bool
+	split     bool // every original declaration in its own file
+	isTest    bool
+	origFiles map[string]string // file name -> source
+	origNames []string
+	ovSrc     string
+	importPath string
+}
+
+func prepare(syms []sym, acts []action, newSym, split, isTest bool) *prepared {
+	p := &prepared{syms: syms, acts: acts, newSym: newSym, split: split, isTest: isTest, byKey: map[string]sym{}, origFiles: map[string]string{}}
 	for _, s := range syms {
-		oDecls = append(oDecls, s.text)
-		oImports = append(oImports, s.imports...)
 		for _, k := range s.names {
-			byKey[k] = s
+			p.byKey[k] = s
 		}
 	}
-	oImports = append(oImports, `"unsafe"`)
 	id := ""
 	for _, s := range syms {
 		id += s.id + "+"
 	}
 	id = "C12/orig=" + strings.TrimSuffix(id, "+") + "/ov="
+	var vDecls []string
 	for _, a := range acts {
-		t, ok := overlayText(byKey[a.key], a.key, a.kind)
+		t, ok := overlayText(p.byKey[a.key], a.key, a.kind)
 		if !ok {
-			return
+			return nil
 		}
 		vDecls = append(vDecls, t)
 		id += a.key + ":" + a.kind + ","
@@ -284,44 +324,105 @@ func evalPair(r *Result, syms []sym, acts []action, newSym bool) {
 		id += "new,"
 	}
 	id = strings.TrimSuffix(id, ",")
-	origSrc := fileText(oDecls, oImports, origBase)
+	if split {
+		id += "/split"
+	}
+	if isTest {
+		id += "/test"
+	}
+	p.id = id
+	if split {
+		p.origFiles["a_base.go"] = fileText(nil, baseImports, origBase)
+		for i, s := range syms {
+			p.origFiles[fmt.Sprintf("b%d_%s.go", i, s.id)] = fileText([]string{s.text}, s.imports, "")
+		}
+	} else {
+		var oDecls, oImports []string
+		for _, s := range syms {
+			oDecls = append(oDecls, s.text)
+			oImports = append(oImports, s.imports...)
+		}
+		oImports = append(oImports, baseImports...)
+		p.origFiles["orig.go"] = fileText(oDecls, oImports, origBase)
+	}
+	for n := range p.origFiles {
+		p.origNames = append(p.origNames, n)
+	}
+	sort.Strings(p.origNames)
 	var ovImports []string
-	if newSym {
+	ovAll := strings.Join(vDecls, "\n")
+	if strings.Contains(ovAll, "bits.") {
 		ovImports = append(ovImports, `"math/bits"`)
 	}
-	ovSrc := fileText(vDecls, ovImports, "")
+	if strings.Contains(ovAll, "unicode.") {
+		ovImports = append(ovImports, `"unicode"`)
+	}
+	p.ovSrc = fileText(vDecls, ovImports, "")
+	return p
+}
 
-	fset := token.NewFileSet()
-	of, err := parser.ParseFile(fset, "orig.go", origSrc, parser.ParseComments)
-	if err != nil {
-		r.add(id, "generator bug: original does not parse: "+err.Error())
-		return
+func (p *prepared) origText() string {
+	var b strings.Builder
+	for _, n := range p.origNames {
+		b.WriteString("// ---- file " + n + "\n" + p.origFiles[n] + "\n")
 	}
-	vf, err := parser.ParseFile(fset, "overlay.go", ovSrc, parser.ParseComments)
-	if err != nil {
-		r.add(id, "generator bug: overlay does not parse: "+err.Error()+"\n"+ovSrc)
-		return
-	}
+	return b.String()
+}
+
+const testOnlyOverlay = "package p\n\nfunc brandNewInTest() int { return 1 }\n"
+const incJS = "// an .inc.js file next to the overlay sources\n"
+
+// fsFiles are the entries this pair contributes to the overlay file system.
+func (p *prepared) fsFiles(m map[string]string) {
+	m["src/"+p.importPath+"/ov.go"] = p.ovSrc
+	m["src/"+p.importPath+"/ov_test.go"] = testOnlyOverlay
+	m["src/"+p.importPath+"/shim.inc.js"] = incJS
+}
+
+// evalPair merges one prepared pair with the real parseAndAugment and compares with the model.
+func evalPair(r *Result, p *prepared) {
+	id, acts, byKey, newSym := p.id, p.acts, p.byKey, p.newSym
+	origSrc, ovSrc := p.origText(), p.ovSrc
 	// reference facts of the original alone
 	rfset := token.NewFileSet()
-	rof, _ := parser.ParseFile(rfset, "orig.go", origSrc, parser.ParseComments)
-	rinfo, rerr := check(rfset, []*ast.File{rof})
+	var rofs []*ast.File
+	for _, n := range p.origNames {
+		rof, err := parser.ParseFile(rfset, n, p.origFiles[n], parser.ParseComments)
+		if err != nil {
+			r.add(id, "generator bug: original does not parse: "+err.Error())
+			return
+		}
+		rofs = append(rofs, rof)
+	}
+	rinfo, rerr := check(rfset, rofs)
 	if rerr != nil {
 		r.add(id, "generator bug: original alone does not type-check: "+rerr.Error())
 		return
 	}
-	origFacts := facts(rfset, []*ast.File{rof}, rinfo)
-	rvf, _ := parser.ParseFile(token.NewFileSet(), "overlay.go", ovSrc, parser.ParseComments)
+	origFacts := facts(rfset, rofs, rinfo)
+	rvf, err := parser.ParseFile(token.NewFileSet(), "overlay.go", ovSrc, parser.ParseComments)
+	if err != nil {
+		r.add(id, "generator bug: overlay does not parse: "+err.Error()+"\n"+ovSrc)
+		return
+	}
 	ovFacts := facts(token.NewFileSet(), []*ast.File{rvf}, nil)
 
 	var merged []*ast.File
+	var jsFiles []string
+	fset := token.NewFileSet()
 	func() {
 		defer func() {
 			if e := recover(); e != nil {
 				r.add(id, fmt.Sprintf("merge panics: %v", e))
+				merged = nil
 			}
 		}()
-		merged = gbuild.VerifAugment("p", []*ast.File{vf}, []*ast.File{of})
+		var err error
+		merged, jsFiles, err = gbuild.VerifParseAndAugment(p.importPath, p.origFiles, p.isTest, fset)
+		if err != nil {
+			r.add(id, "merge fails: "+err.Error())
+			merged = nil
+		}
 	}()
 	if merged == nil {
 		return
@@ -363,6 +464,11 @@ func evalPair(r *Result, syms []sym, acts []action, newSym bool) {
 		wantSig[k] = origFacts.sigs[k]
 	}
 	for k, a := range actOf {
+		if byKey[k].kind == "pkginit" {
+			want[k] = 2 // the overlay's init is added, the original one stays
+			delete(wantSig, k)
+			continue
+		}
 		switch a {
 		case "override":
 			want[k] = 1 // replaced by the overlay declaration
@@ -398,6 +504,9 @@ func evalPair(r *Result, syms []sym, acts []action, newSym bool) {
 	if newSym {
 		want["brandNew"] = 1
 		wantSig["brandNew"] = ovFacts.sigs["brandNew"]
+	}
+	if p.isTest {
+		want["brandNewInTest"] = 1 // overlay _test.go files take part only in test builds
 	}
 	// a purged type with remaining overlay methods would be inconsistent input: skip such pairs
 	for k, a := range actOf {
@@ -454,9 +563,28 @@ func evalPair(r *Result, syms []sym, acts []action, newSym bool) {
 	if strings.Join(wo, ",") != strings.Join(go_, ",") {
 		problems = append(problems, fmt.Sprintf("order of untouched declarations changed: %v -> %v", wo, go_))
 	}
-	// blank and directive-bearing imports stay
-	if !got.imports[`"unsafe"`] {
-		problems = append(problems, "the unsafe import (used by kept code) was dropped")
+	// used, blank and dot imports stay (an import that became unused and was kept fails the type-check above)
+	for _, im := range baseImports {
+		if !got.imports[im] {
+			problems = append(problems, "import "+im+" of the original was dropped")
+		}
+	}
+	// files: the overlay files come first, under the documented name in the package directory; .inc.js files are found
+	if len(merged) > 0 {
+		first := fset.Position(merged[0].Package).Filename
+		if !strings.HasSuffix(first, "/gopherjs__ov.go") {
+			problems = append(problems, "first merged file is "+first+", want the overlay file gopherjs__ov.go in the package directory")
+		}
+	}
+	wantFiles := 1 + len(p.origNames)
+	if p.isTest {
+		wantFiles++
+	}
+	if len(merged) != wantFiles {
+		problems = append(problems, fmt.Sprintf("%d merged files, want %d", len(merged), wantFiles))
+	}
+	if len(jsFiles) != 1 || !strings.HasSuffix(jsFiles[0], "shim.inc.js") {
+		problems = append(problems, fmt.Sprintf(".inc.js files of the overlay directory: got %v, want shim.inc.js", jsFiles))
 	}
 	if len(problems) > 0 {
 		sort.Strings(problems)
@@ -486,29 +614,56 @@ func (r *Result) count(nontrivial bool) {
 	r.mu.Unlock()
 }
 
-// Run enumerates all pairs with up to maxOrig original declarations and up to maxActs overlay actions.
-func Run(maxOrig, maxActs int) *Result {
-	imp = lockedImporter{importer.ForCompiler(token.NewFileSet(), "source", nil)}
-	// warm the importer
-	imp.Import("unicode/utf8")
-	imp.Import("math/bits")
-	imp.Import("unsafe")
-	r := &Result{}
-	type job struct {
-		syms   []sym
-		acts   []action
-		newSym bool
+// runBatch installs the overlay sources of a batch of pairs as natives.FS (one package directory per pair)
+// and evaluates the pairs in parallel; natives.FS is restored afterwards.
+func runBatch(r *Result, batch []*prepared) {
+	fsFiles := map[string]string{}
+	for i, p := range batch {
+		if p.importPath == "" {
+			p.importPath = fmt.Sprintf("vp/p%d", i)
+		}
+		p.fsFiles(fsFiles)
 	}
-	jobs := make(chan job, 1024)
+	restore := natives.VerifSetFS(fsFiles)
+	defer restore()
 	var wg sync.WaitGroup
+	jobs := make(chan *prepared, len(batch))
+	for _, p := range batch {
+		jobs <- p
+	}
+	close(jobs)
 	for w := 0; w < runtime.NumCPU(); w++ {
 		wg.Add(1)
 		go func() {
 			defer wg.Done()
-			for j := range jobs {
-				evalPair(r, j.syms, j.acts, j.newSym)
+			for p := range jobs {
+				evalPair(r, p)
 			}
 		}()
+	}
+	wg.Wait()
+}
+
+// Run enumerates all pairs with up to maxOrig original declarations and up to maxActs overlay actions;
+// original sets of the full size maxOrig get at most topActs actions (and two of the four layout variants
+// when topActs < maxActs).
+func Run(maxOrig, maxActs, topActs int) *Result {
+	imp = lockedImporter{importer.ForCompiler(token.NewFileSet(), "source", nil)}
+	// warm the importer
+	for _, p := range []string{"unicode/utf8", "math/bits", "unsafe", "unicode", "unicode/utf16", "math/cmplx"} {
+		imp.Import(p)
+	}
+	r := &Result{}
+	var batch []*prepared
+	submit := func(p *prepared) {
+		if p == nil {
+			return
+		}
+		batch = append(batch, p)
+		if len(batch) == 2048 {
+			runBatch(r, batch)
+			batch = nil
+		}
 	}
 	n := len(origSyms)
 	var choose func(start int, cur []sym)
@@ -519,7 +674,7 @@ func Run(maxOrig, maxActs int) *Result {
 			has[s.id] = true
 		}
 		for _, s := range cur {
-			if (s.id == "m1" || s.id == "pm1") && !has["T1"] {
+			if (s.id == "m1" || s.id == "pm1" || s.id == "minit") && !has["T1"] {
 				return
 			}
 			if s.id == "gm" && !has["G1"] {
@@ -532,17 +687,25 @@ func Run(maxOrig, maxActs int) *Result {
 				keys = append(keys, struct{ key, kind string }{k, s.kind})
 			}
 		}
-		for _, newSym := range []bool{false, true} {
-			jobs <- job{cur, nil, newSym}
+		// layouts: all originals in one file / every declaration in its own file; a test build adds the overlay's _test.go file
+		type variant struct{ newSym, split, isTest bool }
+		variants := []variant{{false, false, false}, {true, true, true}, {true, false, false}, {false, true, false}}
+		maxActs := maxActs
+		if len(cur) == maxOrig && topActs < maxActs {
+			maxActs = topActs
+			variants = variants[:2]
+		}
+		for _, v := range variants {
+			submit(prepare(cur, nil, v.newSym, v.split, v.isTest))
 			for i, k1 := range keys {
 				for _, a1 := range actsByKind[k1.kind] {
-					jobs <- job{cur, []action{{k1.key, a1}}, newSym}
+					submit(prepare(cur, []action{{k1.key, a1}}, v.newSym, v.split, v.isTest))
 					if maxActs < 2 {
 						continue
 					}
 					for _, k2 := range keys[i+1:] {
 						for _, a2 := range actsByKind[k2.kind] {
-							jobs <- job{cur, []action{{k1.key, a1}, {k2.key, a2}}, newSym}
+							submit(prepare(cur, []action{{k1.key, a1}, {k2.key, a2}}, v.newSym, v.split, v.isTest))
 						}
 					}
 				}
@@ -553,7 +716,7 @@ func Run(maxOrig, maxActs int) *Result {
 			for _, s := range cur {
 				ids += s.id + " "
 			}
-			r.Samples = append(r.Samples, "original {"+strings.TrimSpace(ids)+"} x every overlay action on <= "+fmt.Sprint(maxActs)+" of its names, with and without a brand-new overlay symbol")
+			r.Samples = append(r.Samples, "original {"+strings.TrimSpace(ids)+"} x every overlay action on <= "+fmt.Sprint(maxActs)+" of its names, x {one file, one file per declaration} x {with, without a brand-new overlay symbol} x {normal, test build}")
 		}
 	}
 	choose = func(start int, cur []sym) {
@@ -568,7 +731,92 @@ func Run(maxOrig, maxActs int) *Result {
 		}
 	}
 	choose(0, nil)
-	close(jobs)
-	wg.Wait()
+	if len(batch) > 0 {
+		runBatch(r, batch)
+	}
+	runImportSubst(r)
 	return r
+}
+
+// runImportSubst enumerates (import path of the package) x (form of a "sync" import in the original) x
+// (overlay with / without an override): for the documented list of packages the import must be redirected to
+// nosync under the name the code uses; everywhere else it must stay as written.
+func runImportSubst(r *Result) {
+	listed := []string{"crypto/rand", "encoding/gob", "encoding/json", "expvar", "go/token", "log", "math/big", "math/rand", "regexp", "time"}
+	unlisted := []string{"vp/q", "sync/atomic", "strings", "time/tzdata", "math", "encoding/xml", "log/syslog", "regexp/syntax", "go/ast", "rand"}
+	forms := []struct{ spec, use, wantListed string }{
+		{`"sync"`, "sync", `sync "github.com/gopherjs/gopherjs/nosync"`},
+		{`s "sync"`, "s", `s "github.com/gopherjs/gopherjs/nosync"`},
+		{`sync "sync"`, "sync", `sync "github.com/gopherjs/gopherjs/nosync"`},
+	}
+	isListed := map[string]bool{}
+	for _, p := range listed {
+		isListed[p] = true
+	}
+	type job struct {
+		path     string
+		form     int
+		override bool
+	}
+	var jobs []job
+	fsFiles := map[string]string{}
+	for _, ip := range append(append([]string{}, listed...), unlisted...) {
+		for fi := range forms {
+			jobs = append(jobs, job{ip, fi, false}, job{ip, fi, true})
+		}
+		fsFiles["src/"+ip+"/ov.go"] = "package p\n\nfunc helper() int { return 1 }\n"
+	}
+	restore := natives.VerifSetFS(fsFiles)
+	defer restore()
+	for _, j := range jobs {
+		f := forms[j.form]
+		id := fmt.Sprintf("C12/imports/pkg=%s/form=%s/override=%v", j.path, strings.ReplaceAll(f.spec, `"`, ""), j.override)
+		orig := "package p\n\nimport " + f.spec + "\nimport \"unicode/utf8\"\n\nvar mu " + f.use + ".Mutex\n\nfunc helper() int { return utf8.RuneLen('x') }\n\nfunc other() int { return 2 }\n"
+		if !j.override {
+			orig = strings.Replace(orig, "func helper() int { return utf8.RuneLen('x') }", "func helper2() int { return utf8.RuneLen('x') }", 1)
+		}
+		fset := token.NewFileSet()
+		var merged []*ast.File
+		func() {
+			defer func() {
+				if e := recover(); e != nil {
+					r.add(id, fmt.Sprintf("merge panics: %v", e))
+					merged = nil
+				}
+			}()
+			var err error
+			merged, _, err = gbuild.VerifParseAndAugment(j.path, map[string]string{"orig.go": orig}, false, fset)
+			if err != nil {
+				r.add(id, "merge fails: "+err.Error())
+				merged = nil
+			}
+		}()
+		if merged == nil {
+			continue
+		}
+		r.count(true)
+		got := facts(fset, merged[len(merged)-1:], nil)
+		want := f.spec
+		if isListed[j.path] {
+			want = f.wantListed
+		}
+		var problems []string
+		if !got.imports[want] {
+			problems = append(problems, "the sync import of the original should read "+want)
+		}
+		for im := range got.imports {
+			if im != want && im != `"unicode/utf8"` {
+				problems = append(problems, "unexpected import "+im)
+			}
+		}
+		if j.override == got.imports[`"unicode/utf8"`] {
+			problems = append(problems, fmt.Sprintf("unicode/utf8 import present=%v although its only user was overridden=%v", got.imports[`"unicode/utf8"`], j.override))
+		}
+		if len(problems) > 0 {
+			var b bytes.Buffer
+			printer.Fprint(&b, fset, merged[len(merged)-1])
+			sort.Strings(problems)
+			r.add(id, strings.Join(problems, "; ")+"\n--- original ---\n"+orig+"\n--- merged original ---\n"+b.String())
+		}
+	}
 }
